@@ -14,6 +14,9 @@ pub const RULE: &str = "case = (sequence of TPKT / fast-path frames, read-chunk 
 pub enum Frame {
     /// TPKT: declared length (whole frame), reserved byte
     Tpkt { len: u16, reserved: u8 },
+    /// TPKT frame whose X.224 data header carries a wrong end-of-TSDU byte (only meaningful through x224::Client::read):
+    /// the frame itself may be rejected, but it must be consumed exactly and the frames after it must still come out right
+    TpktBadX224 { len: u16, eot: u8 },
     /// fast-path: first byte, length form, declared length (whole frame)
     Fast { first: u8, long: bool, len: u16 },
 }
@@ -33,6 +36,8 @@ struct Expect {
     payload: Vec<u8>,
     reject: bool,
     must_hold: bool,
+    /// the result of this read is free (Ok or Err); only exact consumption is asserted and the stream goes on
+    free_result: bool,
 }
 
 /// Build the byte stream and the reference deframing.
@@ -55,7 +60,7 @@ fn build(c: &Case) -> (Vec<u8>, Vec<Expect>) {
                 bytes.push((len >> 8) as u8);
                 bytes.push((len & 0xFF) as u8);
                 if *len < 4 {
-                    exp.push(Expect { end: bytes.len(), raw: true, sec: 0, payload: vec![], reject: true, must_hold: true });
+                    exp.push(Expect { end: bytes.len(), raw: true, sec: 0, payload: vec![], reject: true, must_hold: true, free_result: false });
                     break;
                 }
                 let n = *len as usize - 4;
@@ -75,7 +80,26 @@ fn build(c: &Case) -> (Vec<u8>, Vec<Expect>) {
                 } else {
                     (p, true)
                 };
-                exp.push(Expect { end: bytes.len(), raw: true, sec: 0, payload, reject: false, must_hold: must });
+                exp.push(Expect { end: bytes.len(), raw: true, sec: 0, payload, reject: false, must_hold: must, free_result: false });
+            }
+            Frame::TpktBadX224 { len, eot } => {
+                let len = (*len).max(7);
+                bytes.push(3);
+                bytes.push(0);
+                bytes.push((len >> 8) as u8);
+                bytes.push((len & 0xFF) as u8);
+                let n = len as usize - 4;
+                let mut p: Vec<u8> = (0..n).map(|_| next()).collect();
+                p[0] = 2;
+                p[1] = 0xF0;
+                p[2] = if c.x224 && *eot != 0x80 { *eot } else { 0x80 };
+                bytes.extend_from_slice(&p);
+                if c.x224 && p[2] != 0x80 {
+                    exp.push(Expect { end: bytes.len(), raw: true, sec: 0, payload: vec![], reject: false, must_hold: true, free_result: true });
+                } else {
+                    let payload = if c.x224 { p[3..].to_vec() } else { p };
+                    exp.push(Expect { end: bytes.len(), raw: true, sec: 0, payload, reject: false, must_hold: true, free_result: false });
+                }
             }
             Frame::Fast { first, long, len } => {
                 let first = if *first == 3 { 0 } else { *first };
@@ -92,13 +116,13 @@ fn build(c: &Case) -> (Vec<u8>, Vec<Expect>) {
                 // action bits 00 are fast-path for sure; other non-TPKT first bytes are only required not to panic
                 let must = first & 3 == 0;
                 if l < hdr {
-                    exp.push(Expect { end: bytes.len(), raw: false, sec: first >> 6, payload: vec![], reject: true, must_hold: must });
+                    exp.push(Expect { end: bytes.len(), raw: false, sec: first >> 6, payload: vec![], reject: true, must_hold: must, free_result: false });
                     break;
                 }
                 let n = l - hdr;
                 let p: Vec<u8> = (0..n).map(|_| next()).collect();
                 bytes.extend_from_slice(&p);
-                exp.push(Expect { end: bytes.len(), raw: false, sec: first >> 6, payload: p, reject: false, must_hold: must });
+                exp.push(Expect { end: bytes.len(), raw: false, sec: first >> 6, payload: p, reject: false, must_hold: must, free_result: false });
             }
         }
     }
@@ -136,6 +160,18 @@ pub fn run(c: &Case) -> Outcome {
             Cl::X(x) => x.read(),
         });
         let consumed = *handed.borrow();
+        if e.free_result {
+            if let Res::Panic(p) = r {
+                fail_panic(&mut out, "x224.read", &p);
+                return out;
+            }
+            out.label("x224-bad-header-then-more");
+            if still_must && consumed != e.end {
+                out.fail("deframe:consumed:after-x224-error", format!("frame #{} (bad X.224 header): transport handed out {} bytes, frame ends at {}", i, consumed, e.end));
+                return out;
+            }
+            continue;
+        }
         match r {
             Res::Panic(p) => {
                 fail_panic(&mut out, if c.x224 { "x224.read" } else { "tpkt.read" }, &p);
@@ -217,6 +253,9 @@ pub fn run(c: &Case) -> Outcome {
 }
 
 fn frame(s: &mut Src, small: bool) -> Frame {
+    if s.chance(24) {
+        return Frame::TpktBadX224 { len: 7 + s.below(40) as u16, eot: s.pick(&[0u8, 0x7F, 0x81, 0xFF, 0x00, 0x40]) };
+    }
     if s.bool() {
         let len = match s.below(8) {
             0 => s.below(8) as u16,
@@ -264,7 +303,7 @@ fn sweep(tier: Tier, part: usize, parts: usize) -> impl Iterator<Item = Case> {
     // every TPKT length
     let lens: Vec<u32> = match tier {
         Tier::Thorough => (0..65536u32).collect(),
-        Tier::Quick => (0..1400u32).chain((1400..65536).step_by(331)).chain([0x7FFF, 0x8000, 0xFFFE, 0xFFFF]).collect(),
+        Tier::Quick => (0..65536u32).collect(),
     };
     for (i, l) in lens.iter().enumerate() {
         let sch = scheds[i % scheds.len()].clone();
@@ -293,6 +332,17 @@ fn sweep(tier: Tier, part: usize, parts: usize) -> impl Iterator<Item = Case> {
 /// splits at every offset of every header for a fixed three-frame stream
 fn header_splits() -> Vec<Case> {
     let mut v = Vec::new();
+    // a frame with a bad X.224 header between good ones, through x224::Client::read
+    for eot in [0u8, 0x7F, 0x81, 0xFF] {
+        for sch in [vec![], vec![1u16], vec![3, 2]] {
+            v.push(Case {
+                frames: vec![Frame::Tpkt { len: 12, reserved: 0 }, Frame::TpktBadX224 { len: 10, eot }, Frame::Tpkt { len: 9, reserved: 0 }, Frame::TpktBadX224 { len: 8, eot }, Frame::Fast { first: 0, long: false, len: 6 }, Frame::Tpkt { len: 11, reserved: 0 }],
+                schedule: sch,
+                x224: true,
+                fill: eot as u32,
+            });
+        }
+    }
     for a in 1..12u16 {
         for b in 1..6u16 {
             for x in [false, true] {
